@@ -15,7 +15,7 @@ from .nodes import OptionNode, ConstantNode, FormatNode, ConditionNode, TagsNode
 from .nodes import ModNode, GroupNode
 from .nodes import BooleanNode, IntegerNode, FloatNode, StringNode, TableNode
 from .solvers import LogicalSolver
-from .datatypes import Type
+from .datatypes import Type, BooleanType
 
 class DIP:
     """ DIP parser class
@@ -335,10 +335,13 @@ class DIP:
             if isinstance(node,(IntegerNode, FloatNode, StringNode)):
                 node.validate_options()
             # Check conditions
-            if node.keyword in ['float','int'] and node.condition:
+            if node.condition:
                 target.autoref = node.name
                 with LogicalSolver(target) as s:
-                    if not s.solve(node.condition).value:
+                    result = s.solve(node.condition)
+                    if isinstance(result, BooleanType):
+                        result = result.value
+                    if not result:
                         raise Exception("Node does not fullfil a condition:",
                                         node.name, node.condition)
                 target.autoref = None
